@@ -558,6 +558,24 @@ func c04f(c *Ctx) {
 	if fn == nil {
 		return
 	}
+	// the search for "any chunk not yet listed" looks at every id: each loop of the function other
+	// than the outer one runs exactly while its counter is below the number of chunks (one short,
+	// and the chunk with the highest id is never found: the outer loop then never ends)
+	for _, b := range fn.Blocks {
+		if !isLoopHeader(b) {
+			continue
+		}
+		ifi, isIf := b.Instrs[len(b.Instrs)-1].(*ssa.If)
+		if !isIf {
+			continue
+		}
+		t := verRe.ReplaceAllString(c.term(fn, ifi.Cond), "")
+		if !strings.Contains(t, " < ") || strings.Contains(t, "rangeindex") || strings.Contains(t, "next?") {
+			continue
+		}
+		okT := regexpMust(`^\((phi\([^)]*\)(#\d+)?|builtin:len\(phi\([^)]*\)(#\d+)?\)) < builtin:len\(\$0\)\)$`).MatchString(t)
+		c.Check(okT, "optimizeChunkOrder/loop-bound@"+c.W.Pos(ifi.Pos()), c.W.Pos(ifi.Pos()), "the loop runs while its counter is below the number of chunks", "a loop of optimizeChunkOrder runs under "+pretty(t)+", expected a counter compared with len(chunks) itself: with a smaller bound some chunk is never reached and the ordering does not terminate")
+	}
 	// completeness: the order is handed back only when it is as long as the table of chunks (or
 	// the table is empty). With every listed id taken out of the not-yet-listed set (below), an
 	// order of that length lists every chunk.
